@@ -33,10 +33,10 @@ Definition windows (c : scfg) (h : list aev) : list window :=
   windows_from (resets c) (ignores (s_kind c)) [] h.
 
 (** The filtered attribute set: the allow-listed keys, in order. *)
-Definition restrict (f : option (list bytes)) (a : aset) : aset :=
+Definition restrict (f : option afilter) (a : aset) : aset :=
   match f with
   | None => a
-  | Some ks => filter (fun x => bmem (fst x) ks) a
+  | Some f => filter (fun x => xorb (fst f) (bmem (fst x) (snd f))) a
   end.
 
 (** Distinct sets in order of first appearance. *)
@@ -164,7 +164,7 @@ Definition requests (vs : list view) (i : inst) : list sreq :=
 
 Record sentry := {
   e_id : sid; e_name : bytes; e_kind : option akind; e_ikind : ikind;
-  e_filter : option (list bytes); e_feeder : option nat
+  e_filter : option afilter; e_feeder : option nat
 }.
 
 (** Requests with an aggregation the instrument kind cannot use are refused (an error
